@@ -54,10 +54,30 @@ static struct {
 } S;
 static const int NS[] = { 0, 1, 2, 3, 5, 17, 64, 1000 };
 
+static _Atomic int g_nfail;
 static void oracle_fail(const char *what, long a, long b, long c)
 {
-	fprintf(stderr, "ORACLE-FAIL C10 %s apply=%ld a=%ld b=%ld\n", what, a, b, c);
+	if (atomic_fetch_add(&g_nfail, 1) < 8) fprintf(stderr, "ORACLE-FAIL C10 %s apply=%ld a=%ld b=%ld\n", what, a, b, c);
 	atomic_store(&g_fail, 1);
+}
+
+/* Once a statement of the property has failed the verdict is fixed: stop shortly after (a broken
+ * dispatch_apply may otherwise loop on a recycled record for ever).  An execution that keeps making
+ * "progress" but never finishes is a dispatch_apply that does not return: reported like a hang.
+ * The bound is >100x what a run needs on a heavily loaded machine. */
+static int g_max_seconds = 150;
+static void *monitor(void *arg)
+{
+	(void)arg;
+	for (int ms = 0; ; ms += 100) {
+		usleep(100000);
+		if (atomic_load(&g_fail)) { usleep(300000); vrt_fatal("OracleFail", atomic_load(&g_nfail), 2); }
+		if (ms > g_max_seconds * 1000) {
+			fprintf(stderr, "ORACLE-FAIL C10 the workload did not finish in %d s (dispatch_apply never returned)\n", g_max_seconds);
+			vrt_fatal("Hang", ms / 1000, 71);
+		}
+	}
+	return NULL;
 }
 
 static ap_t *new_ap(int n, dispatch_queue_t q, int qn, int serial, int topword, int depth)
@@ -385,7 +405,8 @@ int main(int argc, char **argv)
 	(void)vrt_tid();
 	vrt_mark("Config", (long)_dispatch_qos_max_parallelism(DISPATCH_QOS_DEFAULT, DISPATCH_MAX_PARALLELISM_ACTIVE), 0, 0);
 	pthread_barrier_init(&g_bar, NULL, NCL + 2);
-	pthread_t th[NCL + 1];
+	pthread_t th[NCL + 1], mon;
+	pthread_create(&mon, NULL, monitor, NULL); pthread_detach(mon);
 	for (long i = 0; i < NCL + 1; i++) pthread_create(&th[i], NULL, client, (void *)i);
 	for (int e = 0; e < g_execs; e++) {
 		setup_exec();
